@@ -80,6 +80,7 @@ func main() {
 	replay := flag.String("replay", "", "violation file to re-run")
 	noEvidence := flag.Bool("no-evidence", false, "do not write evidence (used for scratch trees)")
 	list := flag.Bool("list", false, "list properties and rules")
+	allKeys := flag.Bool("keys", false, "(tooling) load once, run every claimed property's rules and print `KEY <property> <verdict> <key>` for every non-ok obligation")
 	mutantID := flag.String("mutant", "", "(internal) run the property's rules on the overlay mutant with this id and print violation keys")
 	flag.Parse()
 	if *tier == "" {
@@ -103,6 +104,36 @@ func main() {
 			}
 		}
 		return
+	}
+	if *allKeys {
+		c, err := Load(*repo, "quick", true)
+		if err != nil {
+			fmt.Println("KEY * undecided ENGINE/load", strings.Split(err.Error(), "\n")[0])
+			os.Exit(1)
+		}
+		done := map[*Rule][]Ob{}
+		for _, s := range specs {
+			for _, r := range s.Rules {
+				obs, ok := done[r]
+				if !ok {
+					func() {
+						defer func() {
+							if rec := recover(); rec != nil {
+								obs = []Ob{{Key: r.Name + ":panic", Verdict: UNDECIDED}}
+							}
+						}()
+						obs = r.Run(c)
+					}()
+					done[r] = obs
+				}
+				for _, o := range obs {
+					if o.Verdict != OK {
+						fmt.Printf("KEY %s %s %s\n", s.ID, o.Verdict, o.Key)
+					}
+				}
+			}
+		}
+		os.Exit(0)
 	}
 	var onlyKey string
 	if *replay != "" {
